@@ -104,6 +104,19 @@ impl LKHSearch {
                 *route_ctx = orig_route_ctx.deep_copy();
             });
 
+        // a restored route can hold jobs which the repair has put on another vehicle (e.g. a lock which accepts
+        // several vehicles): a job is never served twice, keep the original solution in this case
+        let mut served = HashSet::new();
+        let has_duplicates = new_solution
+            .solution
+            .routes
+            .iter()
+            .flat_map(|route_ctx| route_ctx.route().tour.jobs())
+            .any(|job| !served.insert(job.clone()));
+        if has_duplicates {
+            return orig_solution.deep_copy();
+        }
+
         // restore original unassigned jobs except those which are assigned now (e.g. locked jobs are put into
         // their routes when the solution is repaired): a job lives either in a tour or in the unassigned list
         let assigned = new_solution
